@@ -70,7 +70,7 @@ class WebApp:
     def queue_file(self, file_name, run_background=False):
         # Use the file name for the title.
         self.queue_script(
-            ScriptControl(file_name, file_name, run_background))
+            ScriptControl(file_name, run_background, file_name))
 
     def get_script_control(self, path) -> ScriptControl:
         script_control = self._scripts.get(path, None)
